@@ -200,6 +200,7 @@ def gen_weights(kind, r):
 
 
 _jit = {}
+_jit_evictions = [0]
 
 
 def jitted(kind, cfg, build, fn):
@@ -210,6 +211,11 @@ def jitted(kind, cfg, build, fn):
     eqx, jax = s["eqx"], s["jax"]
     key = (kind,) + tuple(sorted((k, str(v)) for k, v in cfg.items()))
     if key not in _jit:
+        if len(_jit) >= 12:   # cases of one shape are consecutive: keep few executables alive, and drop JAX's own caches
+            _jit.clear()      # now and then (thousands of compiled shapes exhaust memory in the thorough tier)
+            _jit_evictions[0] += 1
+            if _jit_evictions[0] % 25 == 0:
+                jax.clear_caches()
         _, static = eqx.partition(build(cfg), eqx.is_inexact_array)
 
         def F(params, z):
@@ -924,7 +930,8 @@ def run(ctx):
             continue
         t0 = time.time()
         f(ctx)
-        ctx.notes.append(f"{f.__name__}: {time.time() - t0:.1f}s")
+        import resource
+        ctx.notes.append(f"{f.__name__}: {time.time() - t0:.1f}s, max RSS {resource.getrusage(resource.RUSAGE_SELF).ru_maxrss // 1024} MB")
     ctx.assumptions += [
         "finite weights, activations and inputs (0*a = 0 is the only algebraic fact the dependence theorems use; it fails for inf/NaN)",
         "a Jacobian entry that is exactly zero is taken as 'no dependence observed at this point'; complemented by bitwise invariance under large input changes",
